@@ -86,8 +86,13 @@ impl<M> Camera<M> {
             unreachable!("bounded ∩ bounded should be bounded")
         };
 
+        // If `bounds` lies wholly outside the frame, the intersection is
+        // empty (inverted). Collapse it onto the frame's edge instead of
+        // mirroring it back into existence outside the frame.
+        let (l, t) = (l.min(r), t.min(b));
+
         Self {
-            dims: (r.abs_diff(l), b.abs_diff(t)),
+            dims: (r - l, b - t),
             viewport: viewport(pt2(l, t)..pt2(r, b)),
             ..self
         }
